@@ -269,15 +269,88 @@ def csdW (n : Nat) (w s : Nat → α) (k : Nat) : Cx α :=
   let mu := meanTo n w
   csd n (applyWindow mu w s) k
 
+/-- `n = (s.shape[-1] // waveform_averages) * waveform_averages`: the samples `util.psd` keeps
+(`trim_samples=True`, `s = s[..., :n]`) of a signal of `N` samples. -/
+def trimLen (N avg : Nat) : Nat := (N / avg) * avg
+
 /-- `util.psd(s, fs, waveform_averages=avg, trim_samples=True, detrend=None)[k]` for a signal of
-length `N`: segments of `m = N // avg` samples, mean of the magnitudes. -/
+**raw** length `N` (trailing samples included): trim to `trimLen N avg`, `reshape(avg, -1)` into rows of
+`m = trimLen N avg / avg` samples, `csd` of each row, mean of the magnitudes. -/
 def psd (N avg : Nat) (s : Nat → α) (k : Nat) : α :=
-  let m := N / avg
+  let m := trimLen N avg / avg
   meanTo avg fun r => (csd m (fun j => s (r * m + j)) k).abs
 
+/-- the same with a window: `csd` sees rows of `m` samples, so `w = get_window(window, m)` -/
 def psdW (N avg : Nat) (w s : Nat → α) (k : Nat) : α :=
-  let m := N / avg
+  let m := trimLen N avg / avg
   meanTo avg fun r => (csdW m w (fun j => s (r * m + j)) k).abs
+
+/-! ### SciPy's cosine-sum windows, periodic form (`get_window(name, n)` has `fftbins=True`, i.e. `sym=False`)
+
+`scipy.signal.windows._general_cosine_impl(n, a, sym=False)`: `fac = linspace(-pi, pi, n + 1)` (the extra
+sample is truncated), `w = 0; for k in range(len(a)): w += a[k]*cos(k*fac)`.  `np.linspace` computes
+`arange(num)*step + start` with `step = (stop - start)/n`.  (Lengths `n ≤ 1` return `ones(n)`: not modelled.) -/
+
+/-- `np.linspace(-np.pi, np.pi, n + 1)[j]`, `j < n` -/
+def cosFac (n j : Nat) : α := nat j * ((pi - (-pi)) / nat n) + (-pi)
+
+/-- sample `j` of the periodic cosine-sum window of length `n` with coefficients `a 0 … a (terms-1)` -/
+def cosWin (a : Nat → α) (terms n : Nat) : Nat → α :=
+  fun j => sumTo terms fun m => a m * cos (nat m * cosFac n j)
+
+/-- `general_hamming(n, alpha)`: `a = [alpha, 1. - alpha]` -/
+def genHammingCoef (alpha : α) : Nat → α
+  | 0 => alpha
+  | 1 => nat 1 - alpha
+  | _ => nat 0
+
+/-- the cosine-sum windows of `scipy.signal.get_window` exercised for `util.csd` / `util.psd` -/
+inductive CosWindow
+  | hann | hamming | blackman | flattop | nuttall | blackmanharris
+  deriving Repr, DecidableEq
+
+/-- number of coefficients (`len(a)`) -/
+def CosWindow.terms : CosWindow → Nat
+  | .hann => 2
+  | .hamming => 2
+  | .blackman => 3
+  | .flattop => 5
+  | .nuttall => 4
+  | .blackmanharris => 4
+
+/-- SciPy's coefficient tables: `hann = general_hamming(0.5)`, `hamming = general_hamming(0.54)`,
+`blackman = [0.42, 0.50, 0.08]`, `flattop = [0.21557895, 0.41663158, 0.277263158, 0.083578947, 0.006947368]`,
+`nuttall = [0.3635819, 0.4891775, 0.1365995, 0.0106411]`, `blackmanharris = [0.35875, 0.48829, 0.14128, 0.01168]` -/
+def CosWindow.coef : CosWindow → Nat → α
+  | .hann => genHammingCoef (nat 5 / nat 10)
+  | .hamming => genHammingCoef (nat 54 / nat 100)
+  | .blackman => fun
+    | 0 => nat 42 / nat 100
+    | 1 => nat 50 / nat 100
+    | 2 => nat 8 / nat 100
+    | _ => nat 0
+  | .flattop => fun
+    | 0 => nat 21557895 / nat 100000000
+    | 1 => nat 41663158 / nat 100000000
+    | 2 => nat 277263158 / nat 1000000000
+    | 3 => nat 83578947 / nat 1000000000
+    | 4 => nat 6947368 / nat 1000000000
+    | _ => nat 0
+  | .nuttall => fun
+    | 0 => nat 3635819 / nat 10000000
+    | 1 => nat 4891775 / nat 10000000
+    | 2 => nat 1365995 / nat 10000000
+    | 3 => nat 106411 / nat 10000000
+    | _ => nat 0
+  | .blackmanharris => fun
+    | 0 => nat 35875 / nat 100000
+    | 1 => nat 48829 / nat 100000
+    | 2 => nat 14128 / nat 100000
+    | 3 => nat 1168 / nat 100000
+    | _ => nat 0
+
+/-- `scipy.signal.get_window(name, n)` for these cosine-sum windows -/
+def CosWindow.window (w : CosWindow) (n : Nat) : Nat → α := cosWin w.coef w.terms n
 
 /-- `util.phase(s, fs, unwrap=False)[k]` (`phase` calls `csd` with `detrend=None`) -/
 def phaseBin (n : Nat) (s : Nat → α) (k : Nat) : α := (csd n s k).arg
@@ -303,6 +376,14 @@ def tonePower (n : Nat) (s : Nat → α) (fs f : α) : α := (toneConv n s fs f)
 
 /-- `util.tone_phase_conv` -/
 def tonePhase (n : Nat) (s : Nat → α) (fs f : α) : α := (toneConv n s fs f).arg
+
+/-- `util.tone_conv(s, fs, frequency, window=w, detrend=None)`: the same on `w/w.mean()*s` -/
+def toneConvW (n : Nat) (w s : Nat → α) (fs f : α) : Cx α :=
+  toneConv n (applyWindow (meanTo n w) w s) fs f
+
+def tonePowerW (n : Nat) (w s : Nat → α) (fs f : α) : α := (toneConvW n w s fs f).abs / sqrt (nat 2)
+
+def tonePhaseW (n : Nat) (w s : Nat → α) (fs f : α) : α := (toneConvW n w s fs f).arg
 
 /-- `util.rms(s)`: `np.mean(s**2)**0.5` -/
 def rms (n : Nat) (s : Nat → α) : α := sqrt (meanTo n fun j => s j * s j)
@@ -337,6 +418,34 @@ def samTone (pol sfl sfc sfu eq fs fc fm phl phc phu : α) (offset j : Nat) : α
   samPart pol (sfl * (nat 1 / nat 4) / eq) fs (fc + fm * (-(nat 1))) phl offset j
   + samPart pol (sfc * (nat 1 / nat 2) / eq) fs (fc + fm * nat 0) phc offset j
   + samPart pol (sfu * (nat 1 / nat 4) / eq) fs (fc + fm * nat 1) phu offset j
+
+/-- `Modulator.transform` / `EnvelopeFactory.next`: `env * token`, sample by sample -/
+def modulate (env tok : List α) : List α := List.zipWith (· * ·) env tok
+
+/-- one chunk of `Cos2EnvelopeFactory(…, input_factory=ToneFactory(…)).next(len env)` at sample offset `offset`:
+the envelope samples (cells: `stim.envelope`, whose own law is property C09) times the tone -/
+def rampedTone (env : List α) (pol sf fs f ph : α) (offset : Nat) : List α :=
+  modulate env ((List.range env.length).map (tone pol sf fs f ph offset))
+
+/-- `np.fft.rfftfreq(n, d=1/fs)[k]`: `k * (1.0/(n*d))` -/
+def rfftfreq (n : Nat) (fs : α) (k : Nat) : α := nat k * (nat 1 / (nat n * (nat 1 / fs)))
+
+/-- bin `k` of the spectrum `_click_waveform` hands to `csd_to_signal`: `psd * exp(-1j*freq*2*pi*0.5)` with
+`psd[k] = sf` inside the pass band `klo ≤ k < khi` (the mask `(freq >= flb) & (freq < fub)`), `0` elsewhere;
+`sf` is the mean scale factor (`equalize=False`). -/
+def clickSpec (n : Nat) (fs sf : α) (klo khi k : Nat) : Cx α :=
+  Cx.smul (if klo ≤ k ∧ k < khi then sf else nat 0) (cis (-(rfftfreq n fs k * nat 2 * pi * (nat 1 / nat 2))))
+
+/-- `lb = int(round(n/2 - n_window/2))` (Python rounds halves to even), for `n_window ≤ n` -/
+def clickLb (n nw : Nat) : Nat :=
+  let d := n - nw
+  let q := d / 2
+  if d % 2 = 0 then q else if q % 2 = 0 then q else q + 1
+
+/-- sample `i` of `bandlimited_click(fs, flb, fub, window, level, level_unit='rms', equalize=False)` for
+`n = int(round(fs))` even, `n_window = int(round(window*fs)) ≤ n`: `util.csd_to_signal(csd)[lb + i]`. -/
+def blClick (n nw : Nat) (fs sf : α) (klo khi : Nat) (i : Nat) : α :=
+  csdToSignal (n / 2) (clickSpec n fs sf klo khi) (clickLb n nw + i)
 
 end Stim
 
@@ -385,6 +494,56 @@ factories start from `lfilter_zi(taps)` and discard exactly the `ntaps-1` sample
 def filtStim (polIn polOut low high b0 : α) (bt atl z0 : List α) (discard : Nat) (u : List α) : List α :=
   ((lfilter b0 bt atl z0 (u.map fun r => polIn * uniform low high r)).1.drop discard).map (· * polOut)
 
+/-! ### wav playback (`stim.load_wav`, `WavFileFactory`) -/
+
+inductive WavNorm
+  | none | pe | rms
+  deriving Repr, DecidableEq
+
+/-- integer PCM → `-1.0 … 1.0`: `(waveform - ii.min) / (ii.max - ii.min) * 2 - 1` -/
+def pcmToUnit (lo hi v : α) : α := (v - lo) / (hi - lo) * nat 2 - nat 1
+
+/-- `waveform.max()` by a left scan -/
+def lmaxFrom (m : α) : List α → α
+  | [] => m
+  | x :: t => lmaxFrom (if ltb m x then x else m) t
+
+/-- `util.rms` of a list: `np.mean(s**2)**0.5` -/
+def rmsL (x : List α) : α := sqrt (sumList (x.map fun v => v * v) / nat x.length)
+
+/-- `normalization=None / 'pe' / 'rms'`: as is, `waveform / waveform.max()`, `waveform / util.rms(waveform)` -/
+def wavNormalize : WavNorm → List α → List α
+  | .none, x => x
+  | .pe, [] => []
+  | .pe, a :: t => (a :: t).map (· / lmaxFrom a t)
+  | .rms, x => x.map (· / rmsL x)
+
+/-- `load_wav(fs, file, level, calibration, normalization)` at the file's own sampling rate:
+normalise, then `waveform *= sf` with `sf = calibration.get_sf(1e3, level)` -/
+def loadWav (norm : WavNorm) (sf : α) (x : List α) : List α := (wavNormalize norm x).map (· * sf)
+
 end Filter
+
+section Chirp
+variable {α : Type} [TrigField α]
+
+/-- `np.cumsum(x)` continued from `acc` -/
+def cumsumFrom (acc : α) : List α → List α
+  | [] => []
+  | x :: t => (acc + x) :: cumsumFrom (acc + x) t
+
+/-- `stim.chirp(fs, f0, f1, duration, level, calibration, window, equalize=False)` 1253-1299, from the window
+samples `w = get_window(window, n)` (cells) and `sf = get_mean_sf(f0, f1, level)`:
+`wi_norm = cumsum(w**2)/sum(w**2)`, `ifreq = wi_norm*(f1 - f0) + f0`, `phase = cumsum(ifreq)/fs`, `w /= rms(w)`,
+`sqrt(2)*sf*w*sin(2*pi*phase)`.  (`np.sum` adds pairwise, `sumList` in list order: a transcription tolerance.) -/
+def chirp (fs f0 f1 sf : α) (w : List α) : List α :=
+  let w2 := w.map fun v => v * v
+  let tot := sumList w2
+  let ifreq := (cumsumFrom (nat 0) w2).map fun c => c / tot * (f1 - f0) + f0
+  let phase := (cumsumFrom (nat 0) ifreq).map (· / fs)
+  let r := rmsL w
+  List.zipWith (fun wv ph => sqrt (nat 2) * sf * (wv / r) * sin (nat 2 * pi * ph)) w phase
+
+end Chirp
 
 end Psi.Db
